@@ -240,6 +240,7 @@ def poly_rules(ctx, rule):
     # accepted idioms for "one fresh draw per non-constant coefficient, then the secret":
     #   (a) a counted loop pushing one coefficient per iteration      -> [repeat[byte c], byte s]
     #   (b) an iterator over the range mapped through a closure       -> [base collected(mapped(range, c)), byte s]
+    #   (c) repeat_with(draw).take(k - 1)                              -> see below
     coef = rng_lo = rng_hi = None
     idiom = None
     if shape == ["repeat", "byte"] and len(parts[0][1]) == 1 and parts[0][1][0][0] == "byte":
@@ -252,6 +253,19 @@ def poly_rules(ctx, rule):
             idiom = "map"
             coef = m.args[1]
             rng_lo, rng_hi = (src.args[0], src.args[1]) if src.op == "range_iter" else (src.args[1], src.args[2])
+    elif shape in (["part", "byte"], ["base", "byte"]):
+        #   (c) repeat_with(draw).take(k - 1) appended / collected                   -> [part take(mapped(unbounded, c), n), byte s]
+        src = parts[0][1]
+        while src.op in ("collected", "refv"):
+            src = src.args[0]
+        if src.op == "adapted" and src.args[1] == "take" and src.args[0].op == "mapped" and \
+                src.args[0].args[0].op == "iter" and src.args[0].args[0].args[0].op == "unbounded":
+            n = src.args[2]
+            if n.op in ("saturating_sub", "sub") and is_t(n.args[1]) and n.args[1].op == "int" and n.args[1].args[0] == 1:
+                idiom = "take"
+                coef = src.args[0].args[1]
+                from ..terms import Int
+                rng_lo, rng_hi = Int(1), n.args[0]        # k - 1 elements = one per index of 1..k
     ok_shape = idiom is not None
     ctx.add(rule, root + "#shape", ok_shape,
             "the coefficient vector must be one coefficient per index of 1..k (loop push or range.map(..).collect()) followed by the secret; found %s"
@@ -279,7 +293,7 @@ def poly_rules(ctx, rule):
                 rng_lo, rng_hi = some[2][0].args[0], some[2][0].args[1]
         cfg = fr.cfg
         heads = cfg.loop_heads()
-        per_index = bool(draws) and all(e["frame"] == fr.key and any(cfg.dominates(h, e["block"]) and h in cfg.reachable_from(e["block"]) for h in heads) for e in draws)
+        per_index = bool(draws) and all(e["home"] == fr.key and any(cfg.dominates(h, e["home_block"]) and h in cfg.reachable_from(e["home_block"]) for h in heads) for e in draws)
     else:
         # the draw is made inside the closure invoked by map (once per element)
         per_index = bool(draws) and all("#map@" in e["frame"] for e in draws)
